@@ -52,7 +52,8 @@ impl ops::Deref for Query {
 impl cmp::PartialEq for Query {
 	#[inline]
 	fn eq(&self, other: &Query) -> bool {
-		self.as_pct_str() == other.as_pct_str()
+		// compare the decoded bytes: they may not be UTF-8 encoded text.
+		self.as_pct_str().bytes().eq(other.as_pct_str().bytes())
 	}
 }
 
@@ -75,14 +76,16 @@ impl PartialOrd for Query {
 impl Ord for Query {
 	#[inline]
 	fn cmp(&self, other: &Query) -> cmp::Ordering {
-		self.as_pct_str().cmp(other.as_pct_str())
+		self.as_pct_str().bytes().cmp(other.as_pct_str().bytes())
 	}
 }
 
 impl Hash for Query {
 	#[inline]
 	fn hash<H: hash::Hasher>(&self, hasher: &mut H) {
-		self.as_pct_str().hash(hasher)
+		for b in self.as_pct_str().bytes() {
+			b.hash(hasher)
+		}
 	}
 }
 
